@@ -288,9 +288,15 @@ def C15(ctx):
     pool = [p for p in families.litmus(ctx.tier, ctx.seed, avoid=(families.q_mo, families.q_f16)) if len(p["threads"]) <= 4]
     pool += [p for p in families.syncmix(ctx.tier, ctx.seed)]
     pool += [p for p in families.locks(ctx.tier, ctx.seed)]
-    pool = [p for p in pool if not (families.ops_of(p) & {"yield", "await", "nwait", "park"})]
+    pool += [p for p in families.waits(ctx.tier, ctx.seed) if families.ops_of(p) & {"park", "unpark"}]
+    pool = [p for p in pool if not (families.ops_of(p) & {"yield", "await"})]
     rng.shuffle(pool)
     pool = pool[: (45 if ctx.tier == "quick" else 300)]
+    # a thread that holds a park token is still a thread that can continue
+    pool = [dsl.normalize(families.P("token-holder-keeps-running", [dsl.spawn(2), dsl.unpark(2), dsl.fadd("x", 1, "acqrel"), dsl.fadd("x", 2, "acqrel"), dsl.join(2)],
+                                     [dsl.fadd("x", 4, "acqrel"), dsl.fadd("x", 8, "acqrel"), dsl.I("park")])),
+            dsl.normalize(families.P("token-holder-3", [dsl.spawn(2), dsl.spawn(3), dsl.unpark(3), dsl.ld("x"), dsl.join(2), dsl.join(3)],
+                                     [dsl.fadd("x", 1), dsl.ld("y")], [dsl.st("y", 1), dsl.fadd("x", 2), dsl.I("park")]))] + pool
     # unbounded reference
     U = core.run_loom(ctx, pool, cfg_of=lambda p: {"iter_cap": 200000}, tag="unb")
     progs = [p for p, u in zip(pool, U) if u["end"] == "ok"]
